@@ -28,6 +28,21 @@ def video():
     return _video
 
 
+_video2 = None
+
+
+def video2():
+    """A second video EMBEDDED IN THE SAME PACKAGE FILE: same filename and backend type as video(), another HDF5 dataset
+    (the layout of a multi-video .pkg.slp).  Never read - the Evaluator only compares identities."""
+    global _video2
+    if _video2 is None:
+        import copy
+
+        _video2 = copy.deepcopy(video())
+        _video2.backend.dataset = "video1/video"
+    return _video2
+
+
 def skeleton(n):
     import sleap_io as sio
 
@@ -112,7 +127,7 @@ def d16_of(d):
 
 
 # ------------------------------------------------------------------ labels --------------------
-def build_frame(pose_list, frame_idx, n_nodes, scores=None):
+def build_frame(pose_list, frame_idx, n_nodes, scores=None, vid=None):
     """LabeledFrame of user instances (scores None) or predicted instances (integer scores / 64)."""
     import sleap_io as sio
 
@@ -124,28 +139,31 @@ def build_frame(pose_list, frame_idx, n_nodes, scores=None):
             insts.append(sio.Instance.from_numpy(pts, skeleton=sk))
         else:
             insts.append(shim.predicted_instance(pts, score=scores[k] / 64.0, skeleton=sk))
-    return sio.LabeledFrame(video=video(), frame_idx=frame_idx, instances=insts)
+    return sio.LabeledFrame(video=(vid if vid is not None else video()), frame_idx=frame_idx, instances=insts)
 
 
-def build_labels(frames, n_nodes):
+def build_labels(frames, n_nodes, two_videos=False):
     """frames: list of dict(gt=[pose], pr=[pose], sc=[int], haspr=bool).  Returns
     (labels_gt, labels_pr, index) with index: id(instance) -> ('g'|'p', frame number 1-based, index 1-based)."""
     import sleap_io as sio
 
     sk = skeleton(n_nodes)
     gl, pl, index = [], [], {}
+    vids = [video(), video2()] if two_videos else [video()]
     for f, fr in enumerate(frames):
-        lf = build_frame(fr["gt"], f, n_nodes)
+        # two_videos: frames alternate between the two embedded videos and SHARE frame numbers (0, 0, 1, 1, ...)
+        vid, fidx = (vids[f % 2], f // 2) if two_videos else (vids[0], f)
+        lf = build_frame(fr["gt"], fidx, n_nodes, vid=vid)
         for k, inst in enumerate(lf.instances):
             index[id(inst)] = ("g", f + 1, k + 1)
         gl.append(lf)
         if fr["haspr"]:
-            lp = build_frame(fr["pr"], f, n_nodes, scores=fr["sc"])
+            lp = build_frame(fr["pr"], fidx, n_nodes, scores=fr["sc"], vid=vid)
             for k, inst in enumerate(lp.instances):
                 index[id(inst)] = ("p", f + 1, k + 1)
             pl.append(lp)
     keep = gl + pl  # keep the instances alive while ids are used
-    return sio.Labels(gl, videos=[video()], skeletons=[sk]), sio.Labels(pl, videos=[video()], skeletons=[sk]), index, keep
+    return sio.Labels(gl, videos=list(vids), skeletons=[sk]), sio.Labels(pl, videos=list(vids), skeletons=[sk]), index, keep
 
 
 MATCH_THRESHOLDS = None
@@ -199,7 +217,7 @@ def observe_eval(case, opts=None):
     with warnings.catch_warnings():
         warnings.simplefilter("ignore")
         try:
-            lg, lp, index, keep = build_labels(frames, n_nodes)
+            lg, lp, index, keep = build_labels(frames, n_nodes, two_videos=bool(opts.get("two_videos")))
             ev = E.Evaluator(lg, lp, oks_stddev=stddev, oks_scale=scale, match_threshold=thr)
             import copy
             m1 = copy.deepcopy(ev.evaluate())
